@@ -245,12 +245,14 @@ func Decode(rep Reply) *Decoded {
 	body := rep.Body
 	loc := rep.Header.Get("Location")
 	d.Location = loc
+	isRedirect := rep.Status >= 300 && rep.Status < 400 && loc != ""
 	switch {
-	case rep.Status == http.StatusSeeOther:
+	case isRedirect && !strings.Contains(loc, "SAMLResponse="):
+		// a redirect that carries no SAML message: the hand-over to the login UI
 		d.Kind = KindLoginRedirect
 		d.Target = loc
 		return d
-	case rep.Status == http.StatusFound && loc != "":
+	case isRedirect:
 		base, q, _ := strings.Cut(loc, "?")
 		// the ACS URL may itself carry a query: the SAML parameters start at SAMLResponse=
 		if i := strings.Index(loc, "SAMLResponse="); i > 0 {
@@ -296,6 +298,8 @@ func Decode(rep Reply) *Decoded {
 		return d
 	}
 	trim := bytes.TrimSpace(body)
+	head := bytes.ToLower(trim[:min(len(trim), 400)])
+	looksHTML := bytes.Contains(head, []byte("<!doctype html")) || bytes.Contains(head, []byte("<html")) || bytes.Contains(bytes.ToLower(trim), []byte("<form"))
 	switch {
 	case len(trim) == 0:
 		d.Kind = KindEmpty
@@ -304,10 +308,10 @@ func Decode(rep Reply) *Decoded {
 		}
 	case rep.Status >= 400:
 		d.Kind = KindHTTPError
-	case bytes.HasPrefix(trim, []byte("<?xml")) || (bytes.HasPrefix(trim, []byte("<")) && !bytes.Contains(trim[:min(len(trim), 200)], []byte("<!DOCTYPE html")) && !bytes.HasPrefix(trim, []byte("<html"))):
+	case !looksHTML && bytes.HasPrefix(trim, []byte("<")):
 		d.Kind = KindXML
 		d.setXML(body)
-	case bytes.Contains(trim[:min(len(trim), 300)], []byte("<!DOCTYPE html")) || bytes.Contains(trim[:min(len(trim), 300)], []byte("<html")):
+	case looksHTML:
 		d.Forms = ParseForms(body)
 		d.Kind = KindOther
 		for _, f := range d.Forms {
